@@ -685,6 +685,13 @@ return out
 	if err != nil {
 		return &Diff{Family: c.Family, Src: c.Src, Solo: "compile", Conc: err.Error()}
 	}
+	// stored version-1 files decoded for the first time in the process, concurrently (the converter's
+	// tables): the container is the current one with the old version number in the header
+	var v1data []byte
+	if enc, err := (*encoder.Bytecode)(bc).MarshalBinary(); err == nil && len(enc) > 6 {
+		v1data = enc
+		v1data[4], v1data[5] = 0, byte(encoder.BytecodeVersion1)
+	}
 	res := make([]string, vms)
 	var wg sync.WaitGroup
 	start := make(chan struct{})
@@ -692,7 +699,12 @@ return out
 		wg.Add(1)
 		go func(i int) {
 			defer wg.Done()
+			defer func() { _ = recover() }()
 			<-start
+			if v1data != nil {
+				var dec encoder.Bytecode
+				_ = dec.UnmarshalBinary(append([]byte{}, v1data...))
+			}
 			res[i] = RunOne(bc, false, i)
 		}(i)
 	}
